@@ -156,7 +156,7 @@ def run(ck, facts, tier):
         b = need_body(ck, facts, R, key)
         if not b:
             continue
-        ms = enum_matches(b.thir, adt)
+        ms = enum_matches(facts.thir(b.key), adt)
         if len(ms) != 1:
             ck.violation(R, "%s:match" % short(key), b.where(), "expected one match on GoalData")
             continue
@@ -244,7 +244,7 @@ def run(ck, facts, tier):
             ck.violation(R, "invert-caller:%s" % short(k), cg.bodies[k].where(t.get("ln")), "new caller of invert; is its None result treated as ambiguity?")
     gs = need_body(ck, facts, R, "chalk_engine::forest::Forest::get_or_create_table_for_subgoal")
     if gs:
-        ms = enum_matches(gs.thir, "chalk_engine::Literal")
+        ms = enum_matches(facts.thir(gs.key), "chalk_engine::Literal")
         if len(ms) == 1:
             arm = ms[0]["arms"][select_arms(ms[0], V("Negative"))[0][0]]
             if has_call(arm["body"], "abstract_negative_literal") and not has_call(arm["body"], "abstract_positive_literal"):
